@@ -75,10 +75,11 @@ with its own hash function, its own `eqVal` and its own valid options.  Besides 
 above: `equal i j` = `tables[i].Equal(tables[j])` for any `i`, `j` — the same table twice (`i = j`), tables that differ
 in hash function / options / `eqVal` (each is searched with its own hash function, values are compared with the
 receiver's `eqVal`), tables of different Go types (never equal: the type assertion) — and the iterator values a
-program can keep: `seq i` (`tables[i].All()`: the shuffle is drawn by this call), `pull s` (`iter.Pull2`), `next p`,
-`stop p`.  Nested `for range ht.All()` loops, two pulled iterators advanced alternately, a loop broken off half-way and
+program can keep: `seq i` (`tables[i].All()`: a handle on the table; the table is listed, and the shuffle drawn, whenever the sequence is
+RUN), `pull s` (`iter.Pull2`), `next p` (the first one runs the sequence), `stop p`.  Nested `for range ht.All()` loops, two pulled iterators advanced alternately, a loop broken off half-way and
 a sequence run twice are histories over these four operations.  `Spec.Admits`: every operation returned `ok` the
-output of the Spec (finite maps, `Spec.pstep`) for *some* order of each listing that is a permutation of the map. -/
+output of the Spec (finite maps, `Spec.pstep`) for *some* order of each listing that is a permutation of the map as it
+is when the listing is made. -/
 
 theorem C02_pool {K V σ : Type} [DecidableEq K] (sh : Shuffle σ) (hsh : ShufflePerm sh) (cfgs : List (Cfg K V))
     (hv : ∀ c ∈ cfgs, Tab.ValidOpts c.ty c.opts) (g : σ) (ops : List (POp K V)) :
@@ -87,16 +88,48 @@ theorem C02_pool {K V σ : Type} [DecidableEq K] (sh : Shuffle σ) (hsh : Shuffl
   obtain ⟨objs, hnew, hrel⟩ := Pool.init_rel (σ := σ) cfgs hv
   exact ⟨objs, hnew, pool_sim hsh ops _ _ (hrel g)⟩
 
-/-- what a sequence and a traversal are worth, in every state the Spec reaches (whatever the listings chosen, as long
-as each is a permutation of its map): a sequence that has not been ended by a change of its table lists exactly the
-pairs of its table (`SeqsOK`), and what a traversal has left is a suffix of its sequence's listing (`PullsOK`) — it
-starts with the whole listing (`Iters.pull`), `next` yields the head of what is left and nothing else, so a traversal
-run to the end yields every pair of the map exactly once, however many other traversals of the same table are in
-progress. -/
+/-- what a sequence and a traversal are worth, in EVERY state `s` the Spec reaches (whatever the listings chosen, as long
+as each is a permutation of the map it lists) — in particular after `Put` / `Delete` / resizes / `DeleteAll` on the table
+a sequence was obtained from:
+
+* `ItersOK s`: every sequence and traversal is a handle on a table of the pool, and a traversal that is half-way has a
+  suffix of a permutation of its table's CURRENT map left;
+* a traversal `p` that has not started (obtained at any earlier time, from a sequence obtained at any earlier time): any
+  permutation `ch` of the table's map as it is NOW is an admissible listing for its first `next`, and advancing it
+  `|ch| + 1` times yields exactly the pairs of `ch`, in order, each once, and then the end — so a sequence obtained
+  before a change and run after it lists the table as it is when it is run;
+* a traversal that is half-way, advanced to its end, yields exactly what it has left, then the end — however many other
+  traversals of the same table are in progress (they are other entries of `pulls`).
+
+(What is deliberately not claimed: a traversal that is half-way when ITS table is changed — it is `broken`.) -/
 theorem C02_pool_traversals {K V : Type} [DecidableEq K] (cfgs : List (Cfg K V))
     (steps : List (POp K V × List (K × V))) (hc : Spec.ChoicesOK (specInit cfgs) steps) :
-    Spec.SeqsOK (Spec.prun (specInit cfgs) steps) ∧ Spec.PullsOK (Spec.prun (specInit cfgs) steps) :=
-  Spec.iters_ok steps _ hc (Spec.seqsOK_init cfgs) (Spec.pullsOK_init cfgs)
+    Spec.ItersOK (Spec.prun (specInit cfgs) steps) ∧
+    ∀ (p : Nat) (pl : PullV K V), (Spec.prun (specInit cfgs) steps).it.pulls[p]? = some pl →
+      (pl.phase = .fresh → ∃ t, (Spec.prun (specInit cfgs) steps).tabs[pl.tid]? = some t ∧
+        ∀ ch : List (K × V), ch.Perm t.map → ∀ chs : List (List (K × V)), chs.length = ch.length →
+          Spec.choiceOK (Spec.prun (specInit cfgs) steps) (.next p) ch ∧
+          Spec.pouts (Spec.prun (specInit cfgs) steps) ((ch :: chs).map fun c => (POp.next p, c)) =
+            ch.map POut.pair ++ [POut.done]) ∧
+      (pl.phase = .running → ∃ t l, (Spec.prun (specInit cfgs) steps).tabs[pl.tid]? = some t ∧ l.Perm t.map ∧
+        pl.rest <:+ l ∧
+        ∀ chs : List (List (K × V)), chs.length = pl.rest.length + 1 →
+          Spec.pouts (Spec.prun (specInit cfgs) steps) (chs.map fun c => (POp.next p, c)) =
+            pl.rest.map POut.pair ++ [POut.done]) := by
+  have hI := Spec.iters_ok steps _ hc (Spec.itersOK_init cfgs)
+  refine ⟨hI, ?_⟩
+  intro p pl hp
+  obtain ⟨t, ht, hrun⟩ := hI.2 pl (List.mem_of_getElem? hp)
+  constructor
+  · intro hph
+    refine ⟨t, ht, ?_⟩
+    intro ch hperm chs hlen
+    refine ⟨?_, Spec.drain_fresh _ p pl hp hph ch chs hlen⟩
+    simp only [Spec.choiceOK, Iters.freshTid, hp, hph, if_true, Option.bind_some, ht]
+    exact hperm
+  · intro hph
+    obtain ⟨l, hl, hsuf⟩ := hrun hph
+    exact ⟨t, l, ht, hl, hsuf, fun chs hlen => Spec.drain_running pl.rest _ p pl hp hph rfl chs hlen⟩
 
 section PoolNonVacuity
 
@@ -117,25 +150,45 @@ example : ∀ c ∈ poolCfgs, Tab.ValidOpts c.ty c.opts := by
 
 /-- the Model on that pool (identity shuffle): the two quadratic tables hold the same keys with values that differ by
 8 — equal for the receiver that compares modulo 8, different for the other one; a table equals itself; a chaining
-table never equals a quadratic one; two traversals of table 1 advanced alternately each yield both pairs; a change of
-table 1 ends them. -/
+table never equals a quadratic one; two traversals of table 1 advanced alternately each yield both pairs; then two
+more traversals of the same sequence are obtained, one is started, table 1 is changed: the one that was half-way is
+broken (`invalid`), the one that had not started starts afterwards and lists the table as it is THEN (three pairs). -/
 example : (match (Pool.new poolCfgs : Outcome (List (Obj Int Int))) with
     | .ok objs => Pool.run (fun g n => (List.range n, g)) ⟨objs, (), {}⟩
         [.put 1 1 10, .put 1 2 20, .put 2 1 18, .put 2 2 28, .put 0 1 10, .put 0 2 20,
          .equal 1 2, .equal 2 1, .equal 1 1, .equal 0 1, .equal 0 0,
          .seq 1, .seq 1, .pull 0, .pull 1, .next 0, .next 1, .next 1, .next 0, .next 0, .next 1,
-         .pull 0, .put 1 3 30, .next 2, .pull 0, .size 1]
+         .pull 0, .pull 0, .next 3, .put 1 3 30, .next 3, .next 2, .next 2, .next 2, .next 2, .size 1]
     | _ => []) =
     [.ok .unit, .ok .unit, .ok .unit, .ok .unit, .ok .unit, .ok .unit,
      .ok (.bool true), .ok (.bool false), .ok (.bool true), .ok (.bool false), .ok (.bool true),
      .ok (.id 0), .ok (.id 1), .ok (.id 0), .ok (.id 1), .ok (.pair (1, 10)), .ok (.pair (1, 10)), .ok (.pair (2, 20)),
      .ok (.pair (2, 20)), .ok .done, .ok .done,
-     .ok (.id 2), .ok .unit, .ok .invalid, .ok .invalid, .ok (.int 3)] := by
+     .ok (.id 2), .ok (.id 3), .ok (.pair (1, 10)), .ok .unit, .ok .invalid, .ok (.pair (1, 10)), .ok (.pair (2, 20)),
+     .ok (.pair (3, 30)), .ok .done, .ok (.int 3)] := by
   decide
 
-/-- listings chosen for the Spec: `all` of an empty map and a sequence of a one-pair map -/
-example : Spec.ChoicesOK (specInit poolCfgs) [(.put 0 1 10, []), (.all 1, []), (.seq 0, [(1, 10)]), (.pull 0, []), (.next 0, [])] := by
-  simp [Spec.ChoicesOK, Spec.choiceOK, Spec.pstep, specInit, poolCfgs, Spec.Map.insert, Spec.Map.erase]
+/-- D29's history: 3 entries, the sequence is obtained, 14 more entries (a resize: 32 -> 64 slots), a traversal of the
+sequence is obtained, all entries but one are deleted (the table shrinks back to 32 slots); `size`, `next`, `next` -/
+def d29Ops : List (POp Int Int) :=
+  [POp.put 0 1 1, POp.put 0 2 2, POp.put 0 3 3, POp.seq 0] ++
+  ((List.range 14).map fun i => POp.put 0 ((100 + i : Nat) : Int) 7) ++ [POp.size 0, POp.pull 0] ++
+  [POp.delete 0 2, POp.delete 0 3] ++ ((List.range 14).map fun i => POp.delete 0 ((100 + i : Nat) : Int)) ++
+  [POp.size 0, POp.next 0, POp.next 0]
+
+/-- D29's witness on the Model (linear probing, default options, the default int hash): the sequence and its traversal
+are run only after the table has grown and shrunk again — they list the one pair the table holds THEN.  (Before the fix
+of `All()` the Go code listed the slots with the index list of the old capacity: a partial listing after growth, an
+index out of range after shrinking.) -/
+example : (match (Pool.new [⟨.linear, Hash.forInt, fun a b => a == b, {}⟩] : Outcome (List (Obj Int Int))) with
+    | .ok objs => (Pool.run (fun g n => (List.range n, g)) ⟨objs, (), {}⟩ d29Ops).drop 36
+    | _ => []) = [.ok (.int 1), .ok (.pair (1, 1)), .ok .done] := by
+  decide
+
+/-- listings chosen for the Spec: `all` of an empty map; the first `next` of a traversal lists the one-pair map -/
+example : Spec.ChoicesOK (specInit poolCfgs) [(.put 0 1 10, []), (.all 1, []), (.seq 0, []), (.pull 0, []), (.next 0, [(1, 10)])] := by
+  simp [Spec.ChoicesOK, Spec.choiceOK, Spec.pstep, specInit, poolCfgs, Spec.Map.insert, Spec.Map.erase, Iters.addSeq,
+    Iters.pull, Iters.freshTid, Iters.invalidate]
 
 end PoolNonVacuity
 
